@@ -30,13 +30,16 @@ Init ==
 
 SeqToSet(s) == {s[i] : i \in DOMAIN s}
 
+\* observed vote set; the peers' +2/3 claims are not observable (unexported) and are taken from `spec`
+ObsVS(o, specvs) == [votes |-> o.votes, by |-> {<<x[1], x[2]>> : x \in SeqToSet(o.by)}, pm |-> specvs.pm, maj |-> o.maj]
+
 \* observed projection -> node record (fields the projection cannot see are taken from `spec`)
 ObsNode(p, spec) ==
   [ height |-> p.height, round |-> p.round, step |-> p.step,
     lockedR |-> p.lockedR, lockedV |-> p.lockedV, validR |-> p.validR, validV |-> p.validV,
     prop |-> [r |-> p.prop.r, v |-> p.prop.v, pol |-> p.prop.pol],
     propBlock |-> p.propBlock, partsHdr |-> p.partsHdr, ttp |-> p.ttp, commitR |-> p.commitR,
-    pv |-> [r \in Rounds |-> p.pv[r + 1]], pc |-> [r \in Rounds |-> p.pc[r + 1]],
+    pv |-> [r \in Rounds |-> ObsVS(p.pv[r + 1], spec.pv[r])], pc |-> [r \in Rounds |-> ObsVS(p.pc[r + 1], spec.pc[r])],
     tracked |-> SeqToSet(p.tracked) \cap Rounds,
     catchup |-> spec.catchup, lastCommit |-> spec.lastCommit,
     decision |-> p.decision, panic |-> p.panic, stuck |-> FALSE, out |-> << >> ]
@@ -129,7 +132,9 @@ StepDecision(e) ==
 \* restore a state that an earlier, already validated run has reached through the same events
 \* (runs generated from a state graph share prefixes; each distinct prefix is validated once)
 StepSet(e) ==
-  /\ st' = [st EXCEPT ![e.n] = ObsNode(e.post, [catchup |-> e.catchup, lastCommit |-> [r |-> -1, votes |-> EmptyVS]])]
+  /\ st' = [st EXCEPT ![e.n] = ObsNode(e.post, [catchup |-> e.catchup, lastCommit |-> [r |-> -1, votes |-> [v \in Vals |-> None]],
+                                                pv |-> [r \in Rounds |-> [pm |-> {<<x[1], x[2]>> : x \in SeqToSet(e.pmv[r + 1])}]],
+                                                pc |-> [r \in Rounds |-> [pm |-> {<<x[1], x[2]>> : x \in SeqToSet(e.pmc[r + 1])}]]])]
   /\ sgn' = [sgn EXCEPT ![e.n] = e.signs]
   /\ dec' = [dec EXCEPT ![e.n] = e.dec]
   /\ UNCHANGED <<gst, viol, drift>>
